@@ -5,6 +5,7 @@ import jwsgen as G
 from props.c03 import compare, strip, nontrivial as nt3
 
 ID = "C01"
+BUILDS = ["asan", "alloc"]
 CORPUS_FIRST = True
 RULE = ("valid tokens for every signature algorithm x key (jose-signed and Lean-signed, flattened and general), then "
         "the mutation stream: every character position of the signature (stride for RSA in quick), position classes of "
@@ -251,8 +252,62 @@ def run(ctx):
         if not G.spec_verdict(a["jws"], a.get("sig"), a.get("jwk"), a.get("all", False), valid.get(n, {})):
             ctx.pfails.append(("ver:unsound", "verified although no demanded (signature, key) pair is valid (%s): %s" % (
                 a.get("_why"), json.dumps(strip(a))[:400]), op, strip(a), {"r": True}))
+    run_faults(ctx, pool)
+
+
+def run_faults(ctx, pool):
+    """Invalid tokens stay rejected when any single allocation of the verification fails: a verifier that loses its digest
+    (or its decoded signature) to a failed allocation and carries on would accept a signature crafted for the all-zero
+    digest.  Enumerates EVERY allocation of each scenario in the fault-injection build (same harness as C20)."""
+    import ecmath
+    from props.c20 import lib_text, failed
+    text = lib_text(ctx.builds["alloc"])
+    pay = G.b64u(b"payload that was never signed")
+    scs = []
+    for kn, alg in (("EC-P256", "ES256"), ("EC-P384", "ES384"), ("EC-P521", "ES512"), ("EC-K256", "ES256K")):
+        k_ = pool[kn]
+        n_ = ecmath.CURVES[k_["crv"]]["n"]
+        w_ = len(G.b64d(k_["x"]))
+        r_ = int.from_bytes(G.b64d(k_["x"]), "big") % n_
+        tok = {"payload": pay, "protected": G.enc({"alg": alg}), "signature": G.b64u(r_.to_bytes(w_, "big") * 2)}
+        scs.append(("jws.ver", {"jws": tok, "jwk": K.public(k_), "all": False}))
+        scs.append(("jws.ver_io", {"jws": {k: v for k, v in tok.items() if k != "payload"}, "jwk": K.public(k_), "all": False, "feeds": [pay.encode().hex()]}))
+    for kn, alg, w_ in (("oct-32", "HS256", 32), ("oct-64", "HS512", 64), ("RSA-2048", "RS256", 256), ("RSA-2048", "PS256", 256)):
+        tok = {"payload": pay, "protected": G.enc({"alg": alg}), "signature": G.b64u(bytes(w_))}
+        scs.append(("jws.ver", {"jws": tok, "jwk": pool[kn], "all": False}))
+    line = lambda o, a, k: ("alloc.run", {"op": o, "args": a, "k": k, "text": text, "warm": k == 0})
+    base = ctx.real([line(o, a, 0) for o, a in scs], kind="alloc", chunk_min=4)
+    ops, meta = [], []
+    for i, ((o, a), b0) in enumerate(zip(scs, base)):
+        if "res" not in b0 or not failed(o, b0["res"]):
+            ctx.pfails.append(("ver:accepts-invalid", "forged token accepted without any fault: %s" % json.dumps(a)[:300], o, a, b0))
+            continue
+        for k in range(1, b0["count"] + 1):
+            ops.append(line(o, a, k))
+            meta.append(i)
+    res = ctx.real(ops, kind="alloc", chunk_min=20)
+    ctx.evaluations += len(res) + len(scs)
+    ctx.count("invalid tokens under every single allocation fault (runs)", len(res))
+    for i, (_, la), r in zip(meta, ops, res):
+        o, a = scs[i]
+        ctx.distinct.add(("fault %d/%d" % (i, la["k"])).encode())
+        if "crash" in r:
+            continue                  # C09 / C20 report crashes
+        if "res" in r and not failed(o, r["res"]):
+            ctx.pfails.append(("ver:accepts-invalid:under-allocation-failure", "%s accepts a signature that is valid only for the all-zero digest / a zero tag when "
+                               "allocation %d of %d fails (requested through %s): %s" % (o, la["k"], base[i]["count"], r.get("entry"), json.dumps(a)[:300]),
+                               "alloc.run", {"op": o, "args": a, "k": la["k"]}, r))
 
 
 def replay(ctx, rp):
+    if any(o == "alloc.run" for o, a in rp.get("ops", [])):
+        from props.c20 import lib_text, failed
+        text = lib_text(ctx.builds["alloc"])
+        for o, a in rp["ops"]:
+            r = ctx.real([("alloc.run", dict(a, text=text))], kind="alloc")[0]
+            ctx.evaluations += 1
+            if "res" in r and not failed(a["op"], r["res"]):
+                ctx.pfails.append(("ver:accepts-invalid:under-allocation-failure", "accepted: %s" % json.dumps(a)[:300], "alloc.run", a, r))
+        return
     ops = [(o, a) for o, a in rp.get("ops", [])] + [(d["op"], d["args"]) for d in rp.get("correspondence_disagreements", [])]
     compare(ctx, ops, lambda *a: None)
